@@ -360,6 +360,18 @@ theorem C13_builder_first_poll_freezes (o : A10.Op) (w : Nat) (s : Setter) (a : 
   apply C13_builder_frozen
   simp [A10.Op.poll, A10.Op.pollAux, h]
 
+/-- The argument a builder method writes. -/
+def Setter.target : Setter → Nat
+  | .offset _ => 0 | .offIn _ => 1 | .offOut _ => 2 | .flags _ => 3 | .zc => 4 | .kind _ => 5
+
+/-- Builder methods that set different arguments commute: the request does not depend on the order
+in which `.flags(..)`, `.zc()`, `.kind(..)`, `.from(..)`/`.at(..)` are called before the first poll
+(each one only assigns its own field of the argument tuple). The `encode` component calls the
+setters of `pipe` (`kind`/`flags`) and of `send`/`send_to` (`flags`/`zc`) in both orders (`ord=`). -/
+theorem C13_builder_order_independent (s1 s2 : Setter) (a : Args) (h : s1.target ≠ s2.target) :
+    s1.set (s2.set a) = s2.set (s1.set a) := by
+  cases s1 <;> cases s2 <;> simp [Setter.target] at h <;> rfl
+
 /-- Every setting made before the first poll lands in the request: offsets in
 `off` (`splice_off_in` for the splice input), flag words in the operation's flag
 field, the statx mask and the fallocate mode in `len`, wait options in
